@@ -309,7 +309,37 @@ func c04Bulk() (c04Case, []byte, func(in *wio.DataInputX)) {
 	n := []int{230, 300, 520, 800, 1200, 1500}[simrt.Choose(6)]
 	salt := simrt.Choose(200)
 	ip := func(i int) []byte { return []byte{byte(10 + salt%100), byte(i >> 8), byte(i), byte(i*7 + salt)} }
-	switch simrt.Choose(4) {
+	switch simrt.Choose(6) {
+	case 4:
+		// several payloads of 64 KiB and more in one message (each its own large read)
+		k := 2 + simrt.Choose(2)
+		tp := pack.NewTextPack()
+		for i := 0; i < k; i++ {
+			tp.AddTexts([]pack.TextRec{{Div: byte(1 + i), Hash: int32(salt + i), Text: strings.Repeat(string(rune('a'+i)), []int{65536, 66000, 70000}[simrt.Choose(3)])}})
+		}
+		return c04Case{Kind: "pack", Desc: fmt.Sprintf("TextPack with %d texts of 64 KiB+", k)}, pack.ToBytesPack(tp), func(in *wio.DataInputX) {
+			q := pack.ReadPack(in)
+			if rt04.on {
+				rt04.got = pack.ToBytesPack(q)
+			}
+		}
+	case 5:
+		k := 2 + simrt.Choose(2)
+		l := value.NewListValue(nil)
+		for i := 0; i < k; i++ {
+			b := make([]byte, []int{65536, 66000, 70000}[simrt.Choose(3)])
+			for j := range b {
+				b[j] = byte(i + 1)
+			}
+			l.Add(value.NewBlobValue(b))
+		}
+		bb := value.WriteValue(wio.NewDataOutputX(), l).ToByteArray()
+		return c04Case{Kind: "value", Desc: fmt.Sprintf("list of %d blobs of 64 KiB+", k)}, bb, func(in *wio.DataInputX) {
+			v := value.ReadValue(in)
+			if rt04.on {
+				rt04.got = value.WriteValue(wio.NewDataOutputX(), v).ToByteArray()
+			}
+		}
 	case 0:
 		l := value.NewListValue(nil)
 		for i := 0; i < n; i++ {
